@@ -385,8 +385,11 @@ def parse_docstr_examples(docstr, callname=None, modpath=None, lineno=1,
     try:
         if parser_kw is None:
             parser_kw = {}
-        for example in parser(docstr, callname=callname, modpath=modpath,
-                              fpath=fpath, lineno=lineno, **parser_kw):
+        # Exhaust the parser first: a docstring that turns out to be malformed
+        # in a later block must not have produced examples already.
+        examples = list(parser(docstr, callname=callname, modpath=modpath,
+                               fpath=fpath, lineno=lineno, **parser_kw))
+        for example in examples:
             n_parsed += 1
             yield example
     except Exception as ex:
